@@ -321,6 +321,8 @@ func (sesh *Session) Close() error {
 	if err != nil {
 		return err
 	}
+	// whether or not the notice below can be sent, the connections must not outlive the session
+	defer sesh.sb.closeAll()
 	// we send a notice frame telling remote to close the session
 
 	buf := sesh.streamObfsBufPool.Get().(*[]byte)
